@@ -1116,7 +1116,9 @@ def _run_otfad_cfg(ctx, case, cli):
             kb["read_only"] = bool(f & 4)
         cfg["key_blobs"].append(kb)
     mask = align = None
-    if "scramble" in lay and db.get_bool("otfad", "supports_key_scrambling", False):
+    # the family's own validation schema says whether a configuration may carry `key_scramble`; what it may carry is applied
+    offered = any("key_scramble" in (sc.get("properties") or {}) for sc in OtfadNxp.get_validation_schemas(fam))
+    if "scramble" in lay and offered:
         mask, align = lay["scramble"]
         cfg["key_scramble"] = {"key_scramble_mask": _num(rng, mask), "key_scramble_align": _num(rng, align, 2)}
     alignment = core.pick(rng, [16, 512])
